@@ -113,7 +113,9 @@ def _gen_parse(rng, cfg):
     ext = corpus.extracted() if cfg["use_extracted"] else []
     if rng.random() < cfg.get("p_grammar", 0.0):
         # seeded query grammar over the harness schema: joins of every kind, derived tables/CTEs that join, correlated subqueries, DNF filters
-        return {"k": "parse", "sql": corpus.gen_schema_query(rng), "dialect": None}
+        # the grammar only uses portable SQL: sometimes the query is read (and later qualified / optimized) in a dialect with
+        # its own identifier rules
+        return {"k": "parse", "sql": corpus.gen_schema_query(rng), "dialect": rng.choice([None, None, None, "bigquery", "snowflake", "duckdb", "postgres", "tsql", "mysql", "spark", "oracle", "clickhouse"])}
     if ext and src < 0.45:
         if rng.random() < 0.5:
             strata = corpus.extracted_strata()
@@ -165,12 +167,15 @@ def generate(prop, run_seed, tier):
     if shape < (0.3 if mode == "C08" else 0.08):
         # optimizer-shaped run: one qualifiable query, qualify, then rules in the optimizer's own order (a random subset, or one
         # rule alone), with cache-populating reads in between; the generic op mix follows on the result
-        cfg["p_grammar"] = 0.7
+        cfg["p_grammar"] = 1.0
         cfg["shape"] = "pipeline"
-        ops = [_gen_parse(rng, dict(cfg, use_extracted=False))]
-        if ops[0]["dialect"] is not None or rng.random() < 0.15:
-            fixq = corpus.optimizer_fixture_queries(max_len=400) if rng.random() < 0.5 else []
+        u = rng.random()
+        fixq = corpus.optimizer_fixture_queries(max_len=400) if 0.7 <= u < 0.85 else []
+        if u < 0.7:
+            ops = [_gen_parse(rng, cfg)]
+        else:
             ops = [{"k": "parse", "sql": rng.choice(fixq)[1] if fixq else rng.choice(corpus.SCHEMA_QUERIES), "dialect": None}]
+        cfg["p_grammar"] = 0.4
         use_schema = rng.random() < 0.9
 
         def reads():
